@@ -137,6 +137,21 @@ def run(tier):
         jobs.add(g, make_cfg(chars_of(g, ctexts)), ctexts, start='s')
         cases.append(default_case(src, ctexts, start='s'))
         allg.append(g)
+    # rules whose names differ only in leading / trailing underscores are different rules: tried at the same position (a later option, a
+    # lookahead, a closure element) each keeps its own result
+    from ..absgrammar import alt, call, grammar, opt, rule, seq, star, tok
+    _a, _b = tok('a'), tok('b')
+    for sib in [grammar(rule('s', alt(seq(call('y_'), _b), seq(call('y'), _a), call('y__'))),
+                        rule('y', seq(_a, _a)), rule('y_', seq(_a, _b)), rule('y__', seq(_a, opt(_a)))),
+                grammar(rule('s', seq(alt(call('_y'), call('y_')), star(call('y')))),
+                        rule('y', alt(_a, _b)), rule('y_', seq(_b, _a)), rule('_y', seq(_a, _b, _b))),
+                grammar(rule('s', alt(seq(call('y'), _b, _b), seq(call('y_'), _b), call('_y'))),
+                        rule('y', _a), rule('y_', seq(_a, opt(_a))), rule('_y', star(alt(_a, _b)))),
+                grammar(rule('s', seq({'op': 'and', 'e': call('y_')}, call('y'), star(call('_y')))),
+                        rule('y', seq(_a, opt(_b))), rule('y_', _a), rule('_y', alt(_a, _b)))]:
+        jobs.add(sib, make_cfg(chars_of(sib, texts)), texts, start='s')
+        cases.append(default_case(to_ebnf(sib), texts, start='s'))
+        allg.append(sib)
     # the cut is part of the core language: a slice of C05's placement universe (a cut at every position of every sequence of
     # choice / optional / closure / join skeletons), with the texts that fail right after each cut
     from .c05 import universe as cut_universe
